@@ -34,3 +34,66 @@ def duration_seconds(t):
     if t.minutes is not None:
         return 60 * t.minutes
     return t.seconds
+
+
+def secs(t):
+    return t.hour * 3600 + t.minute * 60 + t.second
+
+
+def secs_of_timex(t):
+    return t.hour * 3600 + t.minute * 60 + t.second
+
+
+def timex_time_str(h, mi, s):
+    if mi == 0 and s == 0:
+        return 'T' + fmt(h, 2)
+    if s == 0:
+        return 'T' + fmt(h, 2) + ':' + fmt(mi, 2)
+    return 'T' + fmt(h, 2) + ':' + fmt(mi, 2) + ':' + fmt(s, 2)
+
+
+def same_ranges(a, b):
+    if len(a) != len(b):
+        return False
+    for i in range(len(a)):
+        if not (a[i].start == b[i].start and a[i].end == b[i].end):
+            return False
+    return True
+
+
+def is_pairwise_intersection(r, rs):
+    for i in range(len(rs)):
+        for j in range(i + 1, len(rs)):
+            if r.start == max(rs[i].start, rs[j].start) and r.end == min(rs[i].end, rs[j].end):
+                return True
+    return False
+
+
+def all_from(new, old_list, upto):
+    """every element new[0:upto] is (field-wise) one of old_list"""
+    for k in range(upto):
+        found = False
+        for o in old_list:
+            if new[k].start == o.start and new[k].end == o.end:
+                found = True
+        if not found:
+            return False
+    return True
+
+
+def all_inside_some(result, originals):
+    for r in result:
+        found = False
+        for o in originals:
+            if o.start <= r.start and r.end <= o.end:
+                found = True
+        if not found:
+            return False
+    return True
+
+
+def sorted_by_start(rs):
+    for i in range(len(rs) - 1):
+        if not (rs[i].start <= rs[i + 1].start):
+            return False
+    return True
